@@ -139,13 +139,13 @@ def gen_cases(ctx):
                             train=[dict(kind="probe", weight="1", model=0, c=["1"])], val=[], N=2, sanity=False, val_every=0,
                             opt=dict(kind="sgd", lr="1/4", momentum="0", dampening="0", wd="0", step_size=0, gamma="1", freq=1))))
     cases[-1].update(ck_interval=1, N=2)
-    for _ in range(ctx.scale(6, 60)):
+    for _ in range(ctx.scale(5, 60)):
         cases.append(dress(gen_two_stage(rng)))
-    for _ in range(ctx.scale(30, 300)):
+    for _ in range(ctx.scale(24, 300)):
         cases.append(dress(c07.tame(c07.gen_case_rat(rng))))
-    for _ in range(ctx.scale(12, 120)):
+    for _ in range(ctx.scale(9, 120)):
         cases.append(dress(c07.tame(c07.probe_case(rng))))
-    for _ in range(ctx.scale(16, 160)):
+    for _ in range(ctx.scale(13, 160)):
         cases.append(dress(c07.gen_case_torch(rng)))
     return cases
 
@@ -335,6 +335,45 @@ def run(ctx, rep, cases=None):
                              sub, detail=bad[:4], finding=finding)
                 if case["channel"] == "rat":
                     lines.append(resume_request(case, k)); todo.append(("resume", case, k, rec, rec2, B2))
+            # ---- resume with the SAME Solver / condition / callback objects (theorem resume_same_objects): interrupt a
+            # second, identically built set-up at a written step K, then fit the same objects on to N from the checkpoint.
+            # Sampler / iterator positions live on in the objects, so this must be exact for EVERY condition kind.
+            ks = [k for (b, k) in obs["written"] if k < N]
+            if ks:
+                K = case["same_K"] if case.get("same_K") in ks else ctx.rng.choice(ks)
+                case["same_K"] = K          # part of the reported input, so that a replay interrupts at the same step
+                tmp2 = os.path.join(tmp, "same"); os.makedirs(tmp2)
+                BK, recK, obsK = run_full(dict(case, N=K, val_every=case.get("val_every", 0) if case.get("val_every", 0) <= K else 0), tmp2)
+                sub = dict(case, interrupt_at=K, same_objects=True)
+                rep.case(dict(case=case, k=K, same_objects=True), True, kind="same-objects",
+                         sample=dict(case=c07.describe(case), interrupt_at=K, N=N, same_objects=True))
+                rep.count("resume:same-objects")
+                if "error" in recK:
+                    rep.fail(f"fit to step {K} raised {recK['error']}", sub)
+                else:
+                    if "same_cbs" not in case:
+                        case["same_cbs"] = ctx.rng.random() < 0.5      # the library callbacks of the interrupted fit attached again
+                    extra = [obsK["lib_cbs"][0], obsK["lib_cbs"][1]] if case["same_cbs"] else []
+                    _, recS = c07.run_impl(case, B=BK, ckpt_path=os.path.join(tmp2, "state.ckpt"), extra_callbacks=extra)
+                    if "error" in recS:
+                        rep.fail(f"resuming the step-{K} checkpoint with the same Solver object raised {recS['error']}", sub)
+                    else:
+                        bad = []
+                        d = first_tensor_diff([rec["tens_final"]], [recS["tens_final"]])
+                        if d is not None:
+                            bad.append(f"learnable tensor {d[1]}: uninterrupted {d[2]}, resumed {d[3]}")
+                        elif [float(x) for x in rec["lr"]] != [float(x) for x in recS["lr"]]:
+                            bad.append(f"learning rate: uninterrupted {rec['lr']}, resumed {recS['lr']}")
+                        else:
+                            for name, so in rec["opt"].items():
+                                for key, v in so.items():
+                                    w = recS["opt"].get(name, {}).get(key)
+                                    ok = w is not None and (bool(((v == w) | (v.isnan() & w.isnan())).all()) if B.torch.is_tensor(v) else v == w)
+                                    if not ok:
+                                        bad.append(f"optimizer state '{key}' of {name}: uninterrupted {v}, resumed {w}")
+                        if bad:
+                            rep.fail(f"trained to step {K} (checkpoint written), then the SAME Solver, condition and model objects fitted on to step {N} "
+                                     f"from that checkpoint: " + bad[0], sub, detail=bad[:4])
             # ---- weight files
             judge_files(rep, case, B, rec, obs, tmp, lines, todo)
         failure = None
@@ -463,7 +502,7 @@ def replay(ctx, obj):
     rep = common.Report(ctx)
     inp = obj.get("failing_input") or obj.get("first")
     case = dict(inp["input"])
-    case.pop("interrupt_at", None)
+    case.pop("interrupt_at", None); case.pop("same_objects", None)
     lean = common.lean_check("C19")
     run(ctx, rep, [case])
     return common.finish(ctx, rep, lean)
